@@ -11,6 +11,7 @@ From Storage Require Import Store.Paging Store.PagingProofs Store.PagingChild.
 From Storage Require Import Store.XOps Store.ChildDeleteWhere.
 From Storage Require Import Store.Lookups Store.LookupsProofs Store.NoTrace.
 From Storage Require Import Store.PagingCursor Store.PagingCursorProofs Store.ChildLinks.
+From Storage Require Import Store.ChildValidation.
 Import ListNotations.
 
 (* an entity created through the child store exists in both stores, and the parent's fields hold the values
@@ -327,3 +328,24 @@ Theorem delete_removes_link_mentions : forall sch fuel (txs : list tx) oc fuel' 
   (forall s lf os of_ i, In (lf, os, of_) (links_of sch s) -> root_of sch os = r -> ~ In x (eset st' (root_of sch s) i lf)).
 Proof. exact delete_removes_link_mentions_closed. Qed.
 Print Assumptions delete_removes_link_mentions.
+
+(* ---- the persist-time validation of the PARENT's entity strategy (XOps.persist_rejected: a required string written empty, a
+   string-list element bbolt refuses, refused tags - errors raised on the persist context of the parent part) applies to a
+   write through a child store exactly as to the same write through the parent store: same values, same checker *)
+Theorem parent_validation_applies_through_child : forall bt req sch p c pd cd fv sv ch,
+  find_store sch p = Some pd -> sd_parent pd = None ->
+  find_store sch c = Some cd -> sd_parent cd = Some p ->
+  persist_rejected bt req sch p fv sv ch = true ->
+  persist_rejected bt req sch c fv sv ch = true.
+Proof. exact parent_rejection_is_child_rejection_closed. Qed.
+Print Assumptions parent_validation_applies_through_child.
+
+(* ... and the guarded create fails through either store *)
+Theorem parent_validation_refuses_child_create : forall bt req sch p c pd cd fuel oc stev i sys fv sv,
+  find_store sch p = Some pd -> sd_parent pd = None ->
+  find_store sch c = Some cd -> sd_parent cd = Some p ->
+  persist_rejected bt req sch p fv sv None = true ->
+  run_xop sch fuel oc stev (XPersist bt req (OCreate p i sys fv sv)) = Err EOther /\
+  run_xop sch fuel oc stev (XPersist bt req (OCreate c i sys fv sv)) = Err EOther.
+Proof. exact parent_validation_refuses_child_create_closed. Qed.
+Print Assumptions parent_validation_refuses_child_create.
